@@ -1,0 +1,92 @@
+//! Verification hooks (cargo feature `verif`, off by default).
+//!
+//! Nothing here changes debugger behaviour: probes only record, delay points only sleep
+//! when `BS_VERIF_DELAY_SEED` is set in the environment.
+
+use std::sync::Mutex;
+use std::sync::atomic::{AtomicU64, Ordering};
+
+/// One record of an unchecked read that would exceed the fetched buffer.
+#[derive(Clone, Debug)]
+pub struct ProbeRecord {
+    pub site: &'static str,
+    pub have: usize,
+    pub need: usize,
+}
+
+static PROBE_LOG: Mutex<Vec<ProbeRecord>> = Mutex::new(Vec::new());
+static PROBE_CALLS: AtomicU64 = AtomicU64::new(0);
+
+/// Record `(site, have, need)` when an unchecked read of `need` bytes is about to be done
+/// on a buffer holding `have` bytes. Never panics, never changes control flow.
+#[inline(never)]
+pub fn probe_read(site: &'static str, have: usize, need: usize) {
+    PROBE_CALLS.fetch_add(1, Ordering::Relaxed);
+    if need > have
+        && let Ok(mut log) = PROBE_LOG.lock()
+        && log.len() < 4096
+    {
+        log.push(ProbeRecord { site, have, need });
+    }
+}
+
+/// Take all probe records collected so far.
+pub fn drain_probe_log() -> Vec<ProbeRecord> {
+    PROBE_LOG
+        .lock()
+        .map(|mut l| std::mem::take(&mut *l))
+        .unwrap_or_default()
+}
+
+/// Number of probe evaluations (to show that the probes are reached).
+pub fn probe_calls() -> u64 {
+    PROBE_CALLS.load(Ordering::Relaxed)
+}
+
+static DELAY_STATE: AtomicU64 = AtomicU64::new(0);
+static DELAY_HITS: AtomicU64 = AtomicU64::new(0);
+
+fn delay_seed() -> Option<u64> {
+    static SEED: std::sync::OnceLock<Option<u64>> = std::sync::OnceLock::new();
+    *SEED.get_or_init(|| {
+        std::env::var("BS_VERIF_DELAY_SEED")
+            .ok()
+            .and_then(|s| s.parse::<u64>().ok())
+    })
+}
+
+/// Seeded schedule perturbation: sleeps 0..=BS_VERIF_DELAY_MAX_US microseconds (default 2000)
+/// with probability 1/2 when `BS_VERIF_DELAY_SEED` is set, does nothing otherwise.
+#[inline(never)]
+pub fn delay_point(name: &'static str) {
+    let Some(seed) = delay_seed() else {
+        return;
+    };
+    DELAY_HITS.fetch_add(1, Ordering::Relaxed);
+    let n = DELAY_STATE.fetch_add(1, Ordering::Relaxed);
+    // splitmix64 over (seed, counter, name)
+    let mut x = seed
+        .wrapping_add(n.wrapping_mul(0x9E37_79B9_7F4A_7C15))
+        .wrapping_add(name.len() as u64)
+        .wrapping_add(name.as_bytes().first().copied().unwrap_or(0) as u64 * 131);
+    x = (x ^ (x >> 30)).wrapping_mul(0xBF58_476D_1CE4_E5B9);
+    x = (x ^ (x >> 27)).wrapping_mul(0x94D0_49BB_1331_11EB);
+    x ^= x >> 31;
+    if x & 1 == 0 {
+        return;
+    }
+    static MAX_US: std::sync::OnceLock<u64> = std::sync::OnceLock::new();
+    let max_us = *MAX_US.get_or_init(|| {
+        std::env::var("BS_VERIF_DELAY_MAX_US")
+            .ok()
+            .and_then(|s| s.parse::<u64>().ok())
+            .unwrap_or(2000)
+    });
+    let us = (x >> 8) % (max_us + 1);
+    std::thread::sleep(std::time::Duration::from_micros(us));
+}
+
+/// Number of delay points passed while a seed was set.
+pub fn delay_hits() -> u64 {
+    DELAY_HITS.load(Ordering::Relaxed)
+}
